@@ -313,6 +313,22 @@ class SWorld:
         st = self.handle_of(p.tid).status.name
         return {"PENDING": 1, "CANCELLING": 2, "FINISHED": 3, "FAILED": 4, "CANCELLED": 5}[st]
 
+    def exn_sum(self, e) -> int:
+        return sum(self.leaf_code(x) for x in self.leaves(e))
+
+    def handle_outcome(self, p: SPuppet) -> list[int]:
+        """[TaskHandle._return_value + 1 or 0, sum of the leaf codes of TaskHandle._exception or 0]"""
+        if not p.spawned:
+            return [0, 0]
+        h = self.handle_of(p.tid)
+        try:
+            rv = h._return_value
+            has_rv = True
+        except AttributeError:
+            has_rv = False
+        exc = h._exception
+        return [(int(rv) + 1) if has_rv and isinstance(rv, int) else 0, self.exn_sum(exc) if exc is not None else 0]
+
     def observe(self) -> list[int]:
         ab = self.ab
         out = [int(self.loop.time()), len(self.puppets)]
@@ -327,7 +343,7 @@ class SWorld:
                 ts = ab._task_states.get(task) if task is not None else None
                 cur = self.sid(ts.cancel_scope) if ts is not None else 0
             out += [self.task_state(p), task.cancelling() if task is not None else 0,
-                    1 if (task is not None and task._must_cancel) else 0, cur, self.handle_status(p)]
+                    1 if (task is not None and task._must_cancel) else 0, cur, self.handle_status(p)] + self.handle_outcome(p)
         out.append(len(self.scopes))
         for sc in self.scopes:
             flags = (int(sc._active) + 2 * int(sc._cancel_called) + 4 * int(sc._cancelled_caught)
@@ -338,7 +354,8 @@ class SWorld:
                     self.sid(sc._parent_scope), len(sc._tasks), len(sc._child_scopes)]
         out.append(len(self.groups))
         for tg in self.groups:
-            out += [len(tg._tasks), len(getattr(tg, "_exceptions", [])), int(tg._on_completed_fut is not None)]
+            out += [len(tg._tasks), len(getattr(tg, "_exceptions", [])), int(tg._on_completed_fut is not None),
+                    sum(self.exn_sum(e) for e in getattr(tg, "_exceptions", []))]
         codes = sorted(self.classify(h) for h in self.loop.ready_handles())
         out += [len(codes)] + codes
         tms = [x for x in self.loop.live_timers() if x[0] != math.inf]
